@@ -353,3 +353,173 @@ func TestApprovalMatrix(t *testing.T) {
 		}
 	}))
 }
+
+// TestStaggeredWrites: pending writes whose approval windows overlap only partly. Group-0 writes are
+// sent at t0, group-1 writes half a time-out later; verdicts are delivered "early" (right after
+// the write's group was sent), "mid" (for group 0: together with group 1's early verdicts; for
+// group 1: right after the time-outs of group 0 fired, i.e. still before its own time-out) or
+// "late" (after the write's own time-out). A write whose callbacks all approve in phases early/mid
+// must be applied whatever happened to the other writes in between - in particular the time-out of
+// another write of the same peer must not disturb it.
+func TestStaggeredWrites(t *testing.T) {
+	const T = 60 * time.Millisecond
+	type sw struct {
+		write
+		group int
+		phase []int // per callback: 0 early, 1 mid, 2 late
+		sent  time.Time
+	}
+	rapid.Check(t, world.Prop(func(t *rapid.T) {
+		nCb := rapid.IntRange(2, 3).Draw(t, "callbacks")
+		nW := rapid.IntRange(2, 3).Draw(t, "writes")
+		e := newEnv(1, nCb)
+		defer e.w.Teardown()
+		e.srv.SetWriteApprovalTimeout(T)
+		p := e.peers[0]
+		if !p.CallOK(world.BindCall(p.FA([]uint{1}, 1), e.srv.Address(), model.FeatureTypeTypeAlarm)) {
+			t.Fatalf("harness: binding not granted")
+		}
+		var ws []*sw
+		for i := 0; i < nW; i++ {
+			w := &sw{write: write{peer: 0, item: i, ack: true, counter: model.MsgCounterType(200 + i)}, group: i % 2}
+			if i == 2 {
+				w.group = rapid.IntRange(0, 1).Draw(t, "group2")
+			}
+			for c := 0; c < nCb; c++ {
+				w.verdict = append(w.verdict, rapid.SampledFrom([]string{approve, approve, approve, approve, deny, silent}).Draw(t, fmt.Sprintf("verdict%d.%d", i, c)))
+				w.phase = append(w.phase, rapid.SampledFrom([]int{0, 0, 1, 1, 2}).Draw(t, fmt.Sprintf("phase%d.%d", i, c)))
+			}
+			ws = append(ws, w)
+		}
+		discard := func(why string) {
+			world.Record(world.Hash("discarded", why), false, "discarded/"+why)
+			time.Sleep(2 * T)
+			e.w.Sync()
+		}
+		deliver := func(group, phase int) {
+			for _, w := range ws {
+				for c := range w.verdict {
+					if w.group == group && w.phase[c] == phase && w.verdict[c] != silent {
+						if msg := e.msgFor(w.write, c); msg != nil {
+							e.srv.ApproveOrDenyWrite(msg, errType(w.verdict[c]))
+						}
+					}
+				}
+			}
+		}
+		sendGroup := func(g int) bool {
+			n := 0
+			for _, w := range ws {
+				if w.group == g {
+					w.sent = time.Now()
+					e.send(w.write)
+					n++
+				}
+			}
+			e.mu.Lock()
+			have := len(e.calls)
+			e.mu.Unlock()
+			_ = have
+			return waitFor(func() bool {
+				e.mu.Lock()
+				defer e.mu.Unlock()
+				cnt := 0
+				for _, c := range e.calls {
+					for _, w := range ws {
+						if w.group <= g && c.msg.RequestHeader != nil && c.msg.RequestHeader.MsgCounter != nil && *c.msg.RequestHeader.MsgCounter == w.counter {
+							cnt++
+						}
+					}
+				}
+				want := 0
+				for _, w := range ws {
+					if w.group <= g {
+						want += nCb
+					}
+				}
+				return cnt >= want
+			}, 20*T)
+		}
+		outcome := func(w *sw) bool { s, er := e.outcomes(w.write); return s+er >= 1 }
+		t0 := time.Now()
+		if !sendGroup(0) {
+			world.Fail(t, "C12/callback-not-invoked", "approval callbacks not invoked for the first group")
+		}
+		deliver(0, 0)
+		if time.Since(t0) > T/4 {
+			discard("slow-early-0")
+			return
+		}
+		time.Sleep(time.Until(t0.Add(T / 2)))
+		t1 := time.Now()
+		if !sendGroup(1) {
+			world.Fail(t, "C12/callback-not-invoked", "approval callbacks not invoked for the second group")
+		}
+		deliver(1, 0)
+		deliver(0, 1)
+		if time.Since(t1) > T/4 || time.Since(t0) > T*8/10 {
+			discard("slow-early-1")
+			return
+		}
+		// the time-outs of group 0 fire at t0+T; wait until every group-0 write has its outcome
+		waitFor(func() bool {
+			for _, w := range ws {
+				if w.group == 0 && !outcome(w) {
+					return false
+				}
+			}
+			return time.Since(t0) > T
+		}, 20*T)
+		deliver(1, 1)
+		if time.Since(t1) > T*8/10 {
+			discard("slow-mid-1")
+			return
+		}
+		waitFor(func() bool {
+			for _, w := range ws {
+				if !outcome(w) {
+					return false
+				}
+			}
+			return true
+		}, 20*T)
+		deliver(0, 2)
+		deliver(1, 2)
+		time.Sleep(T + 10*time.Millisecond)
+		e.w.Sync()
+		var rows []string
+		nt := false
+		for _, w := range ws {
+			approvedInTime := true
+			for c := range w.verdict {
+				if w.verdict[c] != approve || w.phase[c] == 2 {
+					approvedInTime = false
+				}
+				if w.group == 1 && w.phase[c] == 1 && w.verdict[c] != silent {
+					nt = true // a verdict between another write's time-out and the own one
+				}
+			}
+			s, er := e.outcomes(w.write)
+			applied := e.description(w.item) == w.marker()
+			rows = append(rows, fmt.Sprintf("g%d %v %v", w.group, w.verdict, w.phase))
+			what := fmt.Sprintf("write %s (group %d, verdicts %v, phases %v): success results=%d error results=%d applied=%v", w.marker(), w.group, w.verdict, w.phase, s, er, applied)
+			all := ""
+			for _, x := range ws {
+				all += fmt.Sprintf("\n  %s group %d verdicts %v phases %v", x.marker(), x.group, x.verdict, x.phase)
+			}
+			if approvedInTime {
+				if !applied || s != 1 || er != 0 {
+					world.Fail(t, "C12/approved-write/disturbed-by-other-write", "every callback approved in time, but %s\n all writes (T=%v, group 1 sent at T/2, phase 1 of group 1 = after the time-outs of group 0):%s", what, T, all)
+				}
+			} else {
+				if applied || er != 1 || s != 0 {
+					world.Fail(t, "C12/unapproved-write-outcome/staggered", "not approved by every callback in time, but %s\n all writes:%s", what, all)
+				}
+			}
+		}
+		world.Record(world.Hash("staggered", nCb, rows), nt, fmt.Sprintf("staggered/callbacks-%d", nCb))
+		if nt && world.WantSample() {
+			world.Sample(map[string]any{"kind": "staggered", "callbacks": nCb, "writes": rows})
+		}
+	}))
+}
